@@ -8,24 +8,24 @@ Definition rbrace : ascii := ascii_of_N 125.
 
 (* scanner states outside / inside a string literal, at depth d, with j collected so far *)
 Definition outst (d : Z) (j : str) (st : jstate) : Prop :=
-  inQuote st = false /\ inJson st = true /\ parenCnt st = d /\ jb st = j.
-Definition inst (d : Z) (j : str) (p : bool) (st : jstate) : Prop :=
-  inQuote st = true /\ inJson st = true /\ parenCnt st = d /\ jb st = j /\ is_bsl (previous st) = p.
+  inQuote st = false /\ inJson st = true /\ parenCnt st = d /\ jb st = j /\ escaped st = false.
+Definition inst (d : Z) (j : str) (e : bool) (st : jstate) : Prop :=
+  inQuote st = true /\ inJson st = true /\ parenCnt st = d /\ jb st = j /\ escaped st = e.
 
-Ltac jst st := destruct st as [q ij cnt prev j0]; cbn in *.
+Ltac jst st := destruct st as [q ij cnt esc j0]; cbn in *.
 
-Lemma jstep_in : forall st d j p c, inst d j p st -> 1 <= d -> (is_dq c = false \/ p = true) ->
-  exists st', jstep st c = inl st' /\ inst d (j ++ [c]) (is_bsl c) st'.
+(* inside a literal: any byte that is not an unescaped quote is collected; the escape state follows JSON's rule *)
+Lemma jstep_in : forall st d j e c, inst d j e st -> 1 <= d -> is_dq c && negb e = false ->
+  exists st', jstep st c = inl st' /\ inst d (j ++ [c]) (negb e && is_bsl c) st'.
 Proof.
-  intros st d j p c (Hq & Hj & Hc & Hb & Hp) Hd Hor. jst st. subst q ij cnt j0.
+  intros st d j e c (Hq & Hj & Hc & Hb & He) Hd Hor. jst st. subst q ij cnt j0 esc.
   assert (Hz : (d =? 0) = false) by (apply Z.eqb_neq; lia).
   assert (Hn : (d <? 0) = false) by (apply Z.ltb_ge; lia).
   unfold jstep. cbn. unfold is_dq, is_bsl, byte, cbyte in *.
   destruct (N_of_ascii c =? 123)%N; [cbn; rewrite Hz; eexists; split; [reflexivity|repeat split]|].
   destruct (N_of_ascii c =? 125)%N; [cbn; rewrite Hn, Hz; eexists; split; [reflexivity|repeat split]|].
   destruct (N_of_ascii c =? 34)%N.
-  - destruct Hor as [Hor|Hor]; [discriminate|]. rewrite Hor in Hp. rewrite Hp. cbn. rewrite Hz.
-    eexists; split; [reflexivity|repeat split].
+  - cbn in Hor. destruct e; [|discriminate]. cbn. rewrite Hz. eexists; split; [reflexivity|repeat split].
   - destruct ((N_of_ascii c =? 10)%N || (N_of_ascii c =? 13)%N || (N_of_ascii c =? 9)%N || (N_of_ascii c =? 32)%N);
       cbn; rewrite Hz; eexists; (split; [reflexivity|repeat split]).
 Qed.
@@ -36,19 +36,19 @@ Proof. intros c H. now apply N.eqb_eq in H. Qed.
 Lemma jstep_close : forall st d j c, inst d j false st -> 1 <= d -> is_dq c = true ->
   exists st', jstep st c = inl st' /\ outst d (j ++ [c]) st'.
 Proof.
-  intros st d j c (Hq & Hj & Hc & Hb & Hp) Hd Hdq. jst st. subst q ij cnt j0.
+  intros st d j c (Hq & Hj & Hc & Hb & He) Hd Hdq. jst st. subst q ij cnt j0 esc.
   assert (Hz : (d =? 0) = false) by (apply Z.eqb_neq; lia).
-  unfold jstep. cbn. unfold is_bsl, byte, cbyte in *. rewrite (dq_byte c Hdq). cbn. rewrite Hp. cbn. rewrite Hz.
+  unfold jstep. cbn. unfold cbyte in *. rewrite (dq_byte c Hdq). cbn. rewrite Hz.
   eexists; split; [reflexivity|repeat split].
 Qed.
 
 Lemma jstep_open : forall st d j c, outst d j st -> 1 <= d -> is_dq c = true ->
   exists st', jstep st c = inl st' /\ inst d (j ++ [c]) false st'.
 Proof.
-  intros st d j c (Hq & Hj & Hc & Hb) Hd Hdq. jst st. subst q ij cnt j0.
+  intros st d j c (Hq & Hj & Hc & Hb & He) Hd Hdq. jst st. subst q ij cnt j0 esc.
   assert (Hz : (d =? 0) = false) by (apply Z.eqb_neq; lia).
   unfold jstep. cbn. unfold cbyte. rewrite (dq_byte c Hdq). cbn. rewrite Hz.
-  eexists; split; [reflexivity|]. repeat split. cbn. unfold is_bsl, byte. now rewrite (dq_byte c Hdq).
+  eexists; split; [reflexivity|repeat split].
 Qed.
 
 (* one byte outside a literal: depth after it, and what is kept of it *)
@@ -68,7 +68,7 @@ Qed.
 Lemma jstep_out : forall st d j c d', outst d j st -> 1 <= d -> is_dq c = false -> walk1 d c = Some d' ->
   1 <= d' /\ exists st', jstep st c = inl st' /\ outst d' (j ++ sq1 c) st'.
 Proof.
-  intros st d j c d' (Hq & Hj & Hc & Hb) Hd Hdq Hw. jst st. subst q ij cnt j0.
+  intros st d j c d' (Hq & Hj & Hc & Hb & He) Hd Hdq Hw. jst st. subst q ij cnt j0 esc.
   unfold walk1, sq1 in *. rewrite blank_cases. unfold jstep. cbn. unfold is_dq, byte, cbyte in *.
   destruct (N_of_ascii c =? 123)%N eqn:E1.
   - injection Hw as <-. split; [lia|]. apply N.eqb_eq in E1. rewrite E1. cbn.
@@ -89,35 +89,28 @@ Qed.
 
 Notation jsteps := (steps jmachine).
 
-Lemma lastp_cons : forall c t, is_bsl (last (c :: t) dq) = match t with [] => is_bsl c | _ => is_bsl (last t dq) end.
-Proof. intros c [|c' t]; reflexivity. Qed.
-
-Lemma steps_body : forall b st d j p, inst d j p st -> 1 <= d -> qesc p b = true ->
-  exists st', jsteps st b = Some st' /\
-              inst d (j ++ b) (match b with [] => p | _ => is_bsl (last b dq) end) st'.
+Lemma steps_body : forall b st d j e e', inst d j e st -> 1 <= d -> esc_run e b = Some e' ->
+  exists st', jsteps st b = Some st' /\ inst d (j ++ b) e' st'.
 Proof.
-  induction b as [|c t IH]; intros st d j p Hi Hd Hq.
-  - exists st. split; [reflexivity|]. now rewrite app_nil_r.
-  - cbn in Hq. apply andb_true_iff in Hq as [Hq1 Hq2].
-    destruct (jstep_in st d j p c Hi Hd) as (st1 & E1 & Hi1).
-    { destruct (is_dq c); [right; exact Hq1|left; reflexivity]. }
-    destruct (IH st1 d (j ++ [c]) (is_bsl c) Hi1 Hd Hq2) as (st2 & E2 & Hi2).
+  induction b as [|c t IH]; intros st d j e e' Hi Hd Hq.
+  - injection Hq as <-. exists st. split; [reflexivity|]. now rewrite app_nil_r.
+  - cbn in Hq. destruct (is_dq c && negb e) eqn:Ec; [discriminate|].
+    destruct (jstep_in st d j e c Hi Hd Ec) as (st1 & E1 & Hi1).
+    destruct (IH st1 d (j ++ [c]) _ e' Hi1 Hd Hq) as (st2 & E2 & Hi2).
     exists st2. split.
     + cbn [steps]. change (m_step jmachine st c) with (jstep st c). rewrite E1. exact E2.
-    + rewrite <- app_assoc in Hi2. cbn [app] in Hi2. rewrite lastp_cons. exact Hi2.
+    + rewrite <- app_assoc in Hi2. exact Hi2.
 Qed.
 
-(* a whole literal whose body has every quote escaped and does not end in a backslash *)
-Definition lit_ok (b : str) : bool := qesc false b && negb (is_bsl (last b dq)).
+(* a whole literal whose body obeys JSON's escape rule: no bare quote inside, not ending inside an escape *)
+Definition lit_ok (b : str) : bool := match esc_run false b with Some false => true | _ => false end.
 
 Lemma steps_lit : forall b st d j, outst d j st -> 1 <= d -> lit_ok b = true ->
   exists st', jsteps st (dq :: b ++ [dq]) = Some st' /\ outst d (j ++ dq :: b ++ [dq]) st'.
 Proof.
-  intros b st d j Ho Hd Hl. apply andb_true_iff in Hl as [Hq Hlast]. apply negb_true_iff in Hlast.
+  intros b st d j Ho Hd Hl. unfold lit_ok in Hl. destruct (esc_run false b) as [[|]|] eqn:Eb; try discriminate.
   destruct (jstep_open st d j dq Ho Hd eq_refl) as (st1 & E1 & Hi1).
-  destruct (steps_body b st1 d (j ++ [dq]) false Hi1 Hd Hq) as (st2 & E2 & Hi2).
-  assert (Hp : (match b with [] => false | _ => is_bsl (last b dq) end) = false) by (destruct b; [reflexivity|exact Hlast]).
-  rewrite Hp in Hi2.
+  destruct (steps_body b st1 d (j ++ [dq]) false false Hi1 Hd Eb) as (st2 & E2 & Hi2).
   destruct (jstep_close st2 d _ dq Hi2 Hd eq_refl) as (st3 & E3 & Ho3).
   exists st3. split.
   - cbn [steps]. change (m_step jmachine st dq) with (jstep st dq). rewrite E1.
@@ -202,9 +195,9 @@ Lemma scan_object : forall w inner rest,
   (JOk (lbrace :: squeeze_segs inner ++ [rbrace]), (length w + length (obj_text inner))%nat).
 Proof.
   intros w inner rest Hw Hok Hwalk.
-  assert (E0 : jstep jinit lbrace = inl {| inQuote := false; inJson := true; parenCnt := 1; previous := lbrace; jb := [lbrace] |})
+  assert (E0 : jstep jinit lbrace = inl {| inQuote := false; inJson := true; parenCnt := 1; escaped := false; jb := [lbrace] |})
     by reflexivity.
-  set (st1 := {| inQuote := false; inJson := true; parenCnt := 1; previous := lbrace; jb := [lbrace] |}) in *.
+  set (st1 := {| inQuote := false; inJson := true; parenCnt := 1; escaped := false; jb := [lbrace] |}) in *.
   assert (Ho1 : outst 1 [lbrace] st1) by (repeat split).
   destruct (steps_segs inner st1 1 [lbrace] 1 Ho1 (Z.le_refl 1) Hok Hwalk) as (_ & st2 & E2 & Ho2).
   assert (Es : jsteps jinit (w ++ lbrace :: flatten inner) = Some st2).
@@ -214,7 +207,7 @@ Proof.
   replace (w ++ (lbrace :: flatten inner ++ [rbrace]) ++ rest) with ((w ++ lbrace :: flatten inner) ++ rbrace :: rest)
     by (rewrite <- !app_assoc; cbn; rewrite <- !app_assoc; reflexivity).
   rewrite (direct_steps jmachine _ _ jinit st2 Es).
-  destruct Ho2 as (Hq & Hj & Hc & Hb). destruct st2 as [q ij cnt prev j0]. cbn in Hq, Hj, Hc, Hb. subst.
+  destruct Ho2 as (Hq & Hj & Hc & Hb & He). destruct st2 as [q ij cnt esc j0]. cbn in Hq, Hj, Hc, Hb, He. subst.
   cbn [direct]. change (m_step jmachine ?s rbrace) with (jstep s rbrace).
   unfold jstep. cbn. f_equal.
   rewrite !app_length. cbn [length]. lia.
@@ -222,20 +215,19 @@ Qed.
 
 (* ------------------------------------------------------------------ the text json.Marshal writes *)
 
-Definition no_trail (x : str) : bool := negb (is_bsl (last x dq)).
 Definition plain_char (c : ascii) : bool :=
   negb (is_dq c) && negb (is_blank c) && negb (byte c =? 123)%N && negb (byte c =? 125)%N.
 Definition num_plain (x : str) : bool := forallb plain_char x.
 
-(* Maps of JSON types whose number texts are plain and in which no key or string value ends with a backslash *)
+(* Maps of JSON types whose number texts are plain (no quote, blank or brace) *)
 Fixpoint scan_safe (v : value) : bool :=
   match v with
-  | VStr x => no_trail x
+  | VStr x => true
   | VBool _ | VNil => true
   | VFlt f | VJNum f => num_plain f
   | VInt _ | VI64 _ | VU64 _ => false
   | VMap m => (fix go (m : entries) : bool :=
-                 match m with [] => true | (k, x) :: t => no_trail k && scan_safe x && go t end) m
+                 match m with [] => true | (k, x) :: t => scan_safe x && go t end) m
   | VList l => (fix go (l : list value) : bool :=
                   match l with [] => true | x :: t => scan_safe x && go t end) l
   end.
@@ -290,10 +282,10 @@ Proof.
     unfold walk1. apply negb_true_iff in H3, H4. rewrite H3, H4. now apply IH.
 Qed.
 
-Lemma good_lit : forall x, no_trail x = true -> good [SQ (quote_body true x)].
+Lemma good_lit : forall eh x, good [SQ (quote_body eh x)].
 Proof.
-  intros x H. split; [|intros d _; reflexivity]. cbn. rewrite andb_true_r. unfold lit_ok.
-  rewrite quote_body_qesc, quote_body_last. exact H.
+  intros eh x. split; [|intros d _; reflexivity]. cbn. rewrite andb_true_r. unfold lit_ok.
+  now rewrite quote_body_run.
 Qed.
 
 Lemma good_sep_by : forall sep l, good [sep] -> Forall good l -> good (sep_by sep l).
@@ -304,32 +296,6 @@ Proof.
   apply good_app; [exact Hx|]. change (sep :: sep_by sep (y :: l)) with ([sep] ++ sep_by sep (y :: l)).
   apply good_app; assumption.
 Qed.
-
-Lemma jinsert_Forall {A} (P : str * A -> Prop) : forall kv l, P kv -> Forall P l -> Forall P (jinsert kv l).
-Proof.
-  intros kv l Hkv Hl. induction Hl as [|a l Ha Hl IH]; cbn; [auto|].
-  destruct (str_leb (fst kv) (fst a)); auto.
-Qed.
-Lemma jsort_Forall {A} (P : str * A -> Prop) : forall l, Forall P l -> Forall P (jsort l).
-Proof. intros l H. induction H; cbn; [constructor|]. now apply jinsert_Forall. Qed.
-
-Lemma kids_map : forall m,
-  (fix go (m : entries) : list (str * list seg) :=
-     match m with [] => [] | (k, x) :: t => (k, segments x) :: go t end) m
-  = map (fun kx => (fst kx, segments (snd kx))) m.
-Proof. induction m as [|[k x] m IH]; [reflexivity|]. cbn [map fst snd]. rewrite <- IH. reflexivity. Qed.
-Lemma elems_map : forall l,
-  (fix go (l : list value) : list (list seg) :=
-     match l with [] => [] | x :: t => segments x :: go t end) l = map segments l.
-Proof. induction l as [|x l IH]; [reflexivity|]. cbn [map]. rewrite <- IH. reflexivity. Qed.
-
-Definition entry_segs (kx : str * list seg) : list seg := SQ (quote_body true (fst kx)) :: sp1 ":" :: snd kx.
-
-Lemma segments_vmap : forall m, segments (VMap m) =
-  sp1 "{" :: sep_by (sp1 ",") (map entry_segs (jsort (map (fun kx => (fst kx, segments (snd kx))) m))) ++ [sp1 "}"].
-Proof. intro m. cbn [segments]. rewrite kids_map. reflexivity. Qed.
-Lemma segments_vlist : forall l, segments (VList l) = sp1 "[" :: sep_by (sp1 ",") (map segments l) ++ [sp1 "]"].
-Proof. intro l. cbn [segments]. rewrite elems_map. reflexivity. Qed.
 
 Lemma good_sp1_plain : forall c, forallb plain_char (s c) = true -> good [sp1 c].
 Proof. intros c H. now apply good_plain. Qed.
@@ -344,10 +310,10 @@ Proof.
     assert (E : (2 <=? d + 1) = true) by (apply Z.leb_le; lia). rewrite E. f_equal. lia.
 Qed.
 
-Lemma scan_safe_good : forall v, scan_safe v = true -> good (segments v).
+Lemma scan_safe_good : forall eh v, scan_safe v = true -> good (segments eh v).
 Proof.
-  induction v as [x|b| |z|z|z|f|x|m IH|l IH] using value_ind2; intro H; try discriminate.
-  - now apply good_lit.
+  intro eh. induction v as [x|b| |z|z|z|f|x|m IH|l IH] using value_ind2; intro H; try discriminate.
+  - apply good_lit.
   - destruct b; now apply good_sp1_plain.
   - now apply good_sp1_plain.
   - now apply good_plain.
@@ -355,44 +321,44 @@ Proof.
   - rewrite segments_vmap. apply good_wrap_brace. apply good_sep_by; [now apply good_sp1_plain|].
     rewrite Forall_map. apply jsort_Forall. rewrite Forall_map.
     induction IH as [|[k x] m Hx Hm IHm]; [constructor|]. cbn in H.
-    apply andb_true_iff in H as [H Ht]. apply andb_true_iff in H as [Hk Hs]. constructor; [|now apply IHm].
+    apply andb_true_iff in H as [Hs Ht]. constructor; [|now apply IHm].
     unfold entry_segs. cbn [fst snd].
-    change (SQ (quote_body true k) :: sp1 ":" :: segments x) with ([SQ (quote_body true k)] ++ [sp1 ":"] ++ segments x).
-    apply good_app; [now apply good_lit|]. apply good_app; [now apply good_sp1_plain|]. now apply Hx.
+    change (SQ (quote_body eh k) :: sp1 ":" :: segments eh x) with ([SQ (quote_body eh k)] ++ [sp1 ":"] ++ segments eh x).
+    apply good_app; [apply good_lit|]. apply good_app; [now apply good_sp1_plain|]. now apply Hx.
   - rewrite segments_vlist.
-    assert (Hin : good (sep_by (sp1 ",") (map segments l))).
+    assert (Hin : good (sep_by (sp1 ",") (map (segments eh) l))).
     { apply good_sep_by; [now apply good_sp1_plain|]. rewrite Forall_map.
       induction IH as [|x l Hx Hl IHl]; [constructor|]. cbn in H. apply andb_true_iff in H as [Hs Ht].
       constructor; [now apply Hx|now apply IHl]. }
-    change (sp1 "[" :: sep_by (sp1 ",") (map segments l) ++ [sp1 "]"])
-      with ([sp1 "["] ++ sep_by (sp1 ",") (map segments l) ++ [sp1 "]"]).
+    change (sp1 "[" :: sep_by (sp1 ",") (map (segments eh) l) ++ [sp1 "]"])
+      with ([sp1 "["] ++ sep_by (sp1 ",") (map (segments eh) l) ++ [sp1 "]"]).
     apply good_app; [now apply good_sp1_plain|]. apply good_app; [exact Hin|now apply good_sp1_plain].
 Qed.
 
-Definition map_inner (m : entries) : list seg :=
-  sep_by (sp1 ",") (map entry_segs (jsort (map (fun kx => (fst kx, segments (snd kx))) m))).
+Definition map_inner (eh : bool) (m : entries) : list seg :=
+  sep_by (sp1 ",") (map (entry_segs eh) (jsort (map (fun kx => (fst kx, segments eh (snd kx))) m))).
 
-Lemma good_map_inner : forall m, scan_safe (VMap m) = true -> good (map_inner m).
+Lemma good_map_inner : forall eh m, scan_safe (VMap m) = true -> good (map_inner eh m).
 Proof.
-  intros m H. unfold map_inner. apply good_sep_by; [now apply good_sp1_plain|].
+  intros eh m H. unfold map_inner. apply good_sep_by; [now apply good_sp1_plain|].
   rewrite Forall_map. apply jsort_Forall. rewrite Forall_map.
   induction m as [|[k x] m IHm]; [constructor|]. cbn in H.
-  apply andb_true_iff in H as [H Ht]. apply andb_true_iff in H as [Hk Hs]. constructor; [|apply IHm; exact Ht].
+  apply andb_true_iff in H as [Hs Ht]. constructor; [|apply IHm; exact Ht].
   unfold entry_segs. cbn [fst snd].
-  change (SQ (quote_body true k) :: sp1 ":" :: segments x) with ([SQ (quote_body true k)] ++ [sp1 ":"] ++ segments x).
-  apply good_app; [now apply good_lit|]. apply good_app; [now apply good_sp1_plain|]. now apply scan_safe_good.
+  change (SQ (quote_body eh k) :: sp1 ":" :: segments eh x) with ([SQ (quote_body eh k)] ++ [sp1 ":"] ++ segments eh x).
+  apply good_app; [apply good_lit|]. apply good_app; [now apply good_sp1_plain|]. now apply scan_safe_good.
 Qed.
 
-(* json_scan_split on bytes: blanks, the marshalled object, anything *)
-Lemma scan_marshal : forall m w rest, scan_safe (VMap m) = true -> blank w = true ->
-  direct jmachine jinit (w ++ marshal (VMap m) ++ rest) =
-  (JOk (marshal (VMap m)), (length w + length (marshal (VMap m)))%nat).
+(* json_scan_split on bytes: blanks, the marshalled object (either encoding), anything *)
+Lemma scan_marshal : forall eh m w rest, scan_safe (VMap m) = true -> blank w = true ->
+  direct jmachine jinit (w ++ marshal eh (VMap m) ++ rest) =
+  (JOk (marshal eh (VMap m)), (length w + length (marshal eh (VMap m)))%nat).
 Proof.
-  intros m w rest Hs Hw.
-  destruct (good_map_inner m Hs) as [Hti Hwk].
-  assert (Hm : marshal (VMap m) = obj_text (map_inner m)).
-  { unfold marshal. rewrite segments_vmap. fold (map_inner m). unfold obj_text, flatten.
+  intros eh m w rest Hs Hw.
+  destruct (good_map_inner eh m Hs) as [Hti Hwk].
+  assert (Hm : marshal eh (VMap m) = obj_text (map_inner eh m)).
+  { unfold marshal. rewrite segments_vmap. fold (map_inner eh m). unfold obj_text, flatten.
     cbn [flat_map render_seg sp1 s list_ascii_of_string app]. rewrite flat_map_app. reflexivity. }
-  rewrite Hm, (scan_object w (map_inner m) rest Hw (seg_tight_ok _ Hti) (Hwk 1 (Z.le_refl 1))), (tight_squeeze _ Hti).
+  rewrite Hm, (scan_object w (map_inner eh m) rest Hw (seg_tight_ok _ Hti) (Hwk 1 (Z.le_refl 1))), (tight_squeeze _ Hti).
   reflexivity.
 Qed.
